@@ -587,6 +587,19 @@ Proof. apply add_log_break_flag. Qed.
 Lemma bf_song_with_ls s ls : s_break_flag (song_with_ls s ls) = s_break_flag s.
 Proof. reflexivity. Qed.
 
+Lemma bf_change_cur_track s i : s_break_flag (change_cur_track s i) = s_break_flag s.
+Proof. unfold change_cur_track, settle_octave_once. destruct (_ =? 0); reflexivity. Qed.
+Lemma exec_play_break_flag ec s args ln s' : keeps_break_flag ec ->
+  exec_play ec s args ln = Ok s' -> s_break_flag s' = s_break_flag s.
+Proof.
+  intros Hec E. apply exec_play_ok in E. destruct E as (Hn & _ & s4 & last & Hp & ->).
+  rewrite bf_change_cur_track. change (s_break_flag s4 = s_break_flag s).
+  apply (play_parts_inv (fun x => s_break_flag x = s_break_flag s) ec ln (tr_timepos (cur_track s))) in Hp; [exact Hp| | | |reflexivity].
+  - intros s0 i _ H0. unfold play_enter. rewrite bf_upd_cur, bf_change_cur_track. exact H0.
+  - intros s2 txt toks ls' s3 H2 _ E3. apply Hec in E3. rewrite E3, bf_song_with_ls. exact H2.
+  - unfold zlen in Hn. lia.
+Qed.
+
 Lemma step_song_break_flag ec : keeps_break_flag ec ->
   forall t s s', step_song ec t s = Ok s' -> s_break_flag s' = s_break_flag s.
 Proof.
@@ -622,7 +635,9 @@ Proof.
     solve [intros E; injection E as <-;
            match goal with |- context [exec_rpn_direct ?a ?b ?c] =>
              destruct (exec_rpn_direct_cases a b c) as [[f ->]|[m ->]] end;
-           [reflexivity|apply bf_runtime_error]] ].
+           [reflexivity|apply bf_runtime_error]]
+  | (* PLAY *)
+    solve [apply exec_play_break_flag; exact Hec] ].
 Qed.
 
 Definition flag_kept (b : Z) (r : res song) : Prop := match r with Ok s => s_break_flag s = b | _ => True end.
